@@ -55,7 +55,11 @@ def build_opts(spec):
         acts = [FilestoreActionCode.CREATE_FILE_SNM, FilestoreActionCode.DELETE_FILE_SNN, FilestoreActionCode.CREATE_DIR_SNN]
         kw["fs_requests"] = [FileStoreRequestTlv(acts[i % 3], f"fsreq-{i}.bin") for i in range(n)]
     n = spec.get("overrides", 0)
-    if n:
+    if isinstance(n, list):
+        # explicit [condition, handler code] pairs
+        if n:
+            kw["fault_handler_overrides"] = [FaultHandlerOverrideTlv(ConditionCode[c], FaultHandlerCode[h]) for c, h in n]
+    elif n:
         conds = [ConditionCode.FILE_CHECKSUM_FAILURE, ConditionCode.FILE_SIZE_ERROR, ConditionCode.NAK_LIMIT_REACHED]
         kw["fault_handler_overrides"] = [FaultHandlerOverrideTlv(conds[i % 3], FaultHandlerCode.IGNORE_ERROR) for i in range(n)]
     if spec.get("flow_label") is not None:
